@@ -47,6 +47,23 @@ pub fn main() {
       println!("{} failing observation(s) reproduced", n);
       std::process::exit(if n > 0 { 1 } else { 0 });
     }
+    "docprobe" => {
+      // documents separated by lines containing only "---": bindings of the unnamed program and of every fence namespace
+      let mut s = String::new();
+      std::io::stdin().read_to_string(&mut s).unwrap();
+      crate::subject::silence_panics();
+      for doc in s.split("\n---\n") {
+        let doc = doc.trim_matches('\n');
+        if doc.is_empty() { continue; }
+        println!("=== {:?}", doc);
+        let tree = match mech_syntax::parser::parse(doc) { Ok(t) => t, Err(_) => { println!("  does not parse"); continue; } };
+        let mut i = mech_interpreter::Interpreter::new(0);
+        let r = std::panic::catch_unwind(std::panic::AssertUnwindSafe(|| i.interpret(&tree)));
+        println!("  result: {}", match &r { Ok(Ok(v)) => crate::canon::canon(v).short(), Ok(Err(e)) => format!("Err({})", e.kind_name()), Err(_) => "PANIC".into() });
+        println!("  unnamed: {:?}", crate::checks::c10::snapshot_of(&i).iter().map(|(n, m, c)| format!("{}{}={}", if *m { "~" } else { "" }, n, c.short())).collect::<Vec<_>>());
+        for (id, sub) in i.sub_interpreters.borrow().iter() { println!("  namespace {}: {:?}", id, crate::checks::c10::snapshot_of(sub).iter().map(|(n, m, c)| format!("{}{}={}", if *m { "~" } else { "" }, n, c.short())).collect::<Vec<_>>()); }
+      }
+    }
     "fnlist" => {
       // every function compiler registered by the standard library (the names a call `name(args)` resolves to)
       let mut v: Vec<&'static str> = inventory::iter::<mech_core::FunctionCompilerDescriptor>.into_iter().map(|d| d.name).collect();
